@@ -121,3 +121,62 @@ package mapr
 //@   assigns nothing
 //@ func (*whereCondition).stringClause
 //@   assigns nothing
+
+// ---- outfile (C15) -------------------------------------------------------------------
+// Ghost file system: fsData(p) / fsExists(p) are content and existence of path p,
+// fsSealed(p) marks a name that was renamed away. P = query.Outfile.FilePath.
+//
+// Non-append mode: no effect touches P except the final rename of P+".tmp" (only
+// for the final result, after every write), and nothing is written through the
+// tmp name afterwards; so P is absent, or its earlier complete content, or the
+// complete new content at every instant. Append mode: P only grows and the
+// header is written iff P was absent or empty.
+
+//@ func (*GroupSet).writeQueryFile
+//@   requires [outfile] query != nil && query.Outfile != nil
+//@   assigns fs
+//@   ensures [query-file-complete] implies(isnil(result), fsExists(query.Outfile.FilePath + ".query") && fsData(query.Outfile.FilePath + ".query") == query.RawQuery)
+//@   ensures [only-query-files] fsUnchangedExcept(query.Outfile.FilePath + ".query", query.Outfile.FilePath + ".query.tmp")
+//@   at-call os.OpenFile [tmp-name] arg0 == query.Outfile.FilePath + ".query.tmp" && arg1 == 577
+//@   at-call os.Rename [publish-complete] arg0 == query.Outfile.FilePath + ".query.tmp" && arg1 == query.Outfile.FilePath + ".query" && fsData(arg0) == query.RawQuery
+
+//@ func (*GroupSet).getOutfileFD
+//@   requires [outfile] query != nil && query.Outfile != nil
+//@   assigns fs
+//@   ensures [handle] implies(isnil(result1), result0 != nil && result0.path == ite(query.Outfile.AppendMode, query.Outfile.FilePath, query.Outfile.FilePath + ".tmp") && !fsSealed(result0.path) && fsExists(result0.path))
+//@   ensures [non-append-leaves-outfile] implies(!query.Outfile.AppendMode, fsUnchangedExcept(query.Outfile.FilePath + ".tmp"))
+//@   ensures [append-keeps-content] implies(query.Outfile.AppendMode && isnil(result1), fsUnchangedExcept(query.Outfile.FilePath) && fsData(query.Outfile.FilePath) == ite(old(fsExists(query.Outfile.FilePath)), old(fsData(query.Outfile.FilePath)), ""))
+//@   ensures [failure-no-effect] implies(!isnil(result1), fsUnchangedExcept())
+//@   at-call os.OpenFile [flags] implies(!query.Outfile.AppendMode, arg0 == query.Outfile.FilePath + ".tmp" && arg1 == 577) && implies(query.Outfile.AppendMode, arg0 == query.Outfile.FilePath && arg1 == 1089)
+
+//@ func (*GroupSet).resultWriteUnformattedHeader
+//@   requires [args] query != nil && fd != nil && !fsSealed(fd.path)
+//@   assigns fs
+//@   ensures [only-this-file] fsUnchangedExcept(fd.path) && hasPrefix(fsData(fd.path), old(fsData(fd.path))) && fsExists(fd.path) == old(fsExists(fd.path)) && !fsSealed(fd.path)
+//@   loop 1 invariant [only-this-file] fsUnchangedExcept(fd.path) && hasPrefix(fsData(fd.path), old(fsData(fd.path))) && fsExists(fd.path) == old(fsExists(fd.path)) && !fsSealed(fd.path)
+
+//@ func (*GroupSet).resultWriteUnformatted
+//@   requires [args] query != nil && query.Outfile != nil && fd != nil && !fsSealed(fd.path) && fsExists(fd.path)
+//@   requires [handle] fd.path == ite(query.Outfile.AppendMode, query.Outfile.FilePath, query.Outfile.FilePath + ".tmp")
+//@   assigns fs
+//@   ensures [append-only-grows] implies(query.Outfile.AppendMode, fsUnchangedExcept(query.Outfile.FilePath) && hasPrefix(fsData(query.Outfile.FilePath), old(fsData(query.Outfile.FilePath))))
+//@   ensures [outfile-untouched-unless-published] implies(!query.Outfile.AppendMode && !(finalResult && isnil(result)), fsData(query.Outfile.FilePath) == old(fsData(query.Outfile.FilePath)) && fsExists(query.Outfile.FilePath) == old(fsExists(query.Outfile.FilePath)))
+//@   ensures [published] implies(!query.Outfile.AppendMode && finalResult && isnil(result), fsExists(query.Outfile.FilePath))
+//@   ensures [only-outfile-names] fsUnchangedExcept(query.Outfile.FilePath, query.Outfile.FilePath + ".tmp")
+//@   loop 1 invariant [only-this-file] fsUnchangedExcept(fd.path) && hasPrefix(fsData(fd.path), old(fsData(fd.path))) && fsExists(fd.path) && !fsSealed(fd.path)
+//@   loop 2 invariant [only-this-file] fsUnchangedExcept(fd.path) && hasPrefix(fsData(fd.path), old(fsData(fd.path))) && fsExists(fd.path) && !fsSealed(fd.path)
+//@   at-call os.Rename [final-result-only] finalResult && !query.Outfile.AppendMode && arg0 == query.Outfile.FilePath + ".tmp" && arg1 == query.Outfile.FilePath
+
+//@ func (*GroupSet).WriteResult
+//@   requires [query] query != nil
+//@   assigns fs
+//@   ensures [never-partial] implies(query.Outfile != nil && !query.Outfile.AppendMode && !(finalResult && isnil(result)), fsData(query.Outfile.FilePath) == old(fsData(query.Outfile.FilePath)) && fsExists(query.Outfile.FilePath) == old(fsExists(query.Outfile.FilePath)))
+//@   ensures [query-file] implies(query.Outfile != nil && isnil(result), fsData(query.Outfile.FilePath + ".query") == query.RawQuery)
+//@   ensures [append-only-grows] implies(query.Outfile != nil && query.Outfile.AppendMode, hasPrefix(fsData(query.Outfile.FilePath), ite(old(fsExists(query.Outfile.FilePath)), old(fsData(query.Outfile.FilePath)), "")))
+//@   at-call resultWriteUnformatted [header-iff-empty] implies(query.Outfile.AppendMode, writeHeader == (!fsExists(query.Outfile.FilePath) || len(fsData(query.Outfile.FilePath)) == 0))
+//@   at-call resultWriteUnformatted [query-file-first] fsData(query.Outfile.FilePath + ".query") == query.RawQuery
+//@ func (*Query).HasOutfile
+//@   assigns nothing
+//@   ensures [def] result == (q.Outfile != nil)
+//@ func (*GroupSet).result
+//@   assigns nothing
